@@ -27,6 +27,8 @@ FaultMethods(f) ==
     [] f = "alg_explicit_euler" -> {"MS", "SS"}
     [] f = "alg_without_algebraic" -> {"MS", "SS", "DC"}   \* add_alg(...) with no algebraic variable to solve it for
     [] f = "inf_no_guarantee" -> {"MS", "SS"}      \* grid='inf' with a scheme that has no degree-4 dense output (C15)
+    [] f = "inf_time_dependent" -> {"MS", "SS", "DC"}  \* grid='inf' on an expression with explicit time: frozen per interval it certifies nothing
+    [] f = "inf_algebraic" -> {"DC"}                 \* grid='inf' on an algebraic variable (no polynomial representation)
     [] f = "inf_nonpolynomial" -> {"MS", "SS", "DC"} \* grid='inf' on sin / exp / sqrt / quotient of the states: no polynomial certificate exists (C15)
     [] f = "no_value_clone" -> {"MS", "SS", "DC"}    \* two stages cloned from one template; only one of them gets a value for the template's parameter
     [] OTHER -> Methods
@@ -34,7 +36,7 @@ Faults == {"none", "no_der", "no_value", "no_method", "no_solver", "signal_objec
            "set_value_nonparam", "set_initial_param", "set_initial_unknown", "unknown_grid_subject_to", "unknown_grid_sample",
            "foreign_symbol_constraint", "foreign_symbol_objective", "foreign_symbol_ode", "false_constant_constraint",
            "alg_explicit", "spline_timevar", "spline_nonlin", "horizon_in_ode", "roots_shooting", "no_next", "inf_no_guarantee", "alg_explicit_euler", "false_after_fill",
-           "inf_nonpolynomial", "no_value_clone", "spline_quadstate", "spline_affine", "unknown_grid_integral", "unknown_grid_sum", "alg_without_algebraic"}
+           "inf_nonpolynomial", "no_value_clone", "spline_quadstate", "spline_affine", "unknown_grid_integral", "unknown_grid_sum", "alg_without_algebraic", "inf_time_dependent", "inf_algebraic", "set_value_quadstate", "set_value_bspline_variable"}
 (* omission faults have no position: the step is simply missing *)
 Omission == {"no_der", "no_value", "no_method", "no_solver", "no_next"}
 
